@@ -36,11 +36,13 @@ Record leafd := LeafD {
   lapi : bool;             (* implements get_cursor_coords / move_cursor_to_coords / get_pref_col *)
   lcur : option xy;        (* cursor state *)
   lrej : list Z;           (* rows on which the leaf refuses the cursor *)
-  lminw : Z                (* columns the leaf needs *)
+  lminw : Z;               (* columns the leaf needs *)
+  lfw : Z                  (* > 0: a FIXED-size leaf lfw columns wide and lh rows high (rendered with size () only);
+                              fixed leaves and 'pack' columns are handled by the extended model Model/GeometryX.v *)
 }.
 
 Inductive popt := PPack | PGiven (n : Z) | PWeight (n : Z).           (* Pile item options *)
-Inductive copt := CGiven (n : Z) | CWeight (n : Z).                   (* Columns item options *)
+Inductive copt := CGiven (n : Z) | CWeight (n : Z) | CPack.           (* Columns item options *)
 Inductive fpart := FBody | FHeader | FFooter.
 
 Inductive widget :=
@@ -123,9 +125,9 @@ Definition leaf_accepts (l : leafd) (s : size) (row : Z) : bool :=
   lsel l && (0 <=? row) && (row <? leaf_nrows l s) && negb (existsb (Z.eqb row) (lrej l)).
 Definition leaf_moved (l : leafd) (s : size) (col row : Z) : leafd :=
   LeafD (lid l) (lbox l) (lh l) (lwrap l) (lsel l) (lapi l)
-        (Some (Z.min (Z.max col 0) (fst s - 1), row)) (lrej l) (lminw l).
+        (Some (Z.min (Z.max col 0) (fst s - 1), row)) (lrej l) (lminw l) (lfw l).
 Definition leaf_fits (l : leafd) (s : size) : bool :=
-  (1 <=? fst s) && (lminw l <=? fst s)
+  (1 <=? fst s) && ((lminw l <=? fst s) && (lfw l =? 0))
   && (match snd s with Some r => lbox l && (1 <=? r) | None => negb (lbox l) end)
   && (1 <=? leaf_nrows l s)
   && (match lcur l with
@@ -381,7 +383,8 @@ Definition pile_fits (items : list (popt * cinfo)) (fp : Z) (s : size) : bool :=
 (* ------------------------------------------------------------------------------------------ *)
 (* Columns (columns.py); 'given' and 'weight' columns                                          *)
 (* ------------------------------------------------------------------------------------------ *)
-Definition static_w (o : copt) (mw : Z) : Z := match o with CGiven n => n | CWeight _ => mw end.
+(* 'pack' columns are not part of this model: here they count as columns without a width (never fitting) *)
+Definition static_w (o : copt) (mw : Z) : Z := match o with CGiven n => n | CWeight _ => mw | CPack => 0 end.
 (* Columns.column_widths, first loop: static widths until there is no room (break), the space left, the
    weighted columns (weight, index) *)
 Fixpoint cw_phase1 (opts : list copt) (i fp dc mw shared : Z) : list Z * Z * list (Z * Z) :=
@@ -392,7 +395,7 @@ Fixpoint cw_phase1 (opts : list copt) (i fp dc mw shared : Z) : list Z * Z * lis
       if (shared <? sw + dc) && (fp <? i) then ([], shared, [])
       else
         let '(ws, sh, wt) := cw_phase1 rest (i + 1) fp dc mw (shared - (sw + dc)) in
-        (sw :: ws, sh, match o with CWeight n => (n, i) :: wt | CGiven _ => wt end)
+        (sw :: ws, sh, match o with CWeight n => (n, i) :: wt | _ => wt end)
   end.
 (* second loop: drop columns on the left until we fit *)
 Fixpoint cw_phase2 (ws : list Z) (i dc shared : Z) (wt : list (Z * Z)) : list Z * Z * list (Z * Z) :=
@@ -899,7 +902,7 @@ Definition kidviews (w : widget) : list wview := kids_with view w.
 Definition wnode (w : widget) : node := node_of w (map v_info (kidviews w)).
 
 (* ---- LineBox (line_box.py): a composition of Pile and Columns around the wrapped widget ---- *)
-Definition border_leaf (box : bool) : widget := Leaf (LeafD (-1) box 1 0 false false None [] 1).
+Definition border_leaf (box : bool) : widget := Leaf (LeafD (-1) box 1 0 false false None [] 1 0).
 Definition linebox (w : widget) (tline bline : bool) : widget :=
   let top := Columns [(CGiven 1, false, border_leaf false); (CWeight 1, false, border_leaf false); (CGiven 1, false, border_leaf false)] 0 0 1 in
   let middle := Columns [(CGiven 1, true, border_leaf true); (CWeight 1, false, w); (CGiven 1, true, border_leaf true)] 1 0 1 in
@@ -924,9 +927,9 @@ Definition canvas_rows (w : widget) (s : size) : Z := crows (v_info (view w)) s.
 (* ------------------------------------------------------------------------------------------ *)
 (* wire format (harness <-> extracted model)                                                   *)
 (*   case  = cols hasrows rows nmoves (col row)* tree                                          *)
-(*   tree  = 0 id box h wrap sel api hascur cx cy nrej rej* minw            leaf               *)
+(*   tree  = 0 id box h wrap sel api hascur cx cy nrej rej* minw fw         leaf (fw > 0: fixed)*)
 (*         | 1 focus n (optcode optn tree)*                                 pile               *)
-(*         | 2 focus dc mw n (optcode optn box tree)*                       columns            *)
+(*         | 2 focus dc mw n (optcode optn box tree)*        columns (optcode 0 = 'pack')      *)
 (*         | 3 at aamt wt wamt minw? left right tree                        padding            *)
 (*         | 4 vt vamt ht hamt minh? top bottom tree                        filler             *)
 (*         | 5 fpart hashdr hasftr body [hdr] [ftr]                         frame              *)
@@ -991,7 +994,7 @@ Fixpoint dec_w (fuel : nat) (l : list Z) : option (widget * list Z) :=
                 match dec_w k r with
                 | Some (c, r') =>
                     match go n' r' with
-                    | Some (its, r'') => Some ((if oc =? 1 then CGiven on else CWeight on, zb b, c) :: its, r'')
+                    | Some (its, r'') => Some ((if oc =? 0 then CPack else if oc =? 1 then CGiven on else CWeight on, zb b, c) :: its, r'')
                     | None => None
                     end
                 | None => None
@@ -1002,8 +1005,8 @@ Fixpoint dec_w (fuel : nat) (l : list Z) : option (widget * list Z) :=
     match l with
     | 0 :: id :: box :: h :: wrap :: sel :: api :: hc :: cx :: cy :: r =>
         match dec_list r with
-        | Some (rej, minw :: r') =>
-            Some (Leaf (LeafD id (zb box) h wrap (zb sel) (zb api) (if zb hc then Some (cx, cy) else None) rej minw), r')
+        | Some (rej, minw :: fw :: r') =>
+            Some (Leaf (LeafD id (zb box) h wrap (zb sel) (zb api) (if zb hc then Some (cx, cy) else None) rej minw fw), r')
         | _ => None
         end
     | 1 :: fp :: n :: r =>
